@@ -100,7 +100,7 @@ def shot_case(draw, tier):
     lam = draw(st.sampled_from([0.0, 0.3, 5.0])) if (method == "poisson" and draw(st.booleans())) \
         else float(np.floor(draw(gen.pos_log(1e3, 1e15 if method == "poisson" else 1e12))))
     return {"method": method, "lam": lam, "seed": draw(st.integers(0, 2**32 - 1)),
-            "shape": draw(st.sampled_from([[250, 200], [100, 500], [50000, 1], [224, 224]])),
+            "shape": draw(st.sampled_from([[250, 200], [100, 500], [50000, 1], [224, 224], [600, 90], [80, 700]])),
             "gradient": draw(st.booleans())}
 
 
@@ -169,7 +169,7 @@ def shot_noise_rejects(case, ctx):
 @st.composite
 def read_case(draw, tier):
     return {"sigma": draw(gen.pos_log(0.1, 1e4)), "seed": draw(st.integers(0, 2**32 - 1)),
-            "shape": draw(st.sampled_from([[250, 200], [100, 500], [224, 224]])), "offset": draw(gen.finite(-100, 1e4)),
+            "shape": draw(st.sampled_from([[250, 200], [100, 500], [224, 224], [640, 80], [96, 530]])), "offset": draw(gen.finite(-100, 1e4)),
             "rate": draw(gen.finite(0.0, 5000.0)), "dshape": list(draw(gen.shape2(1, 12))),
             "frame_dtype": draw(st.sampled_from(["float", "float", "int64", "uint16", "int32"]))}
 
@@ -214,7 +214,7 @@ def read_dark(case, ctx):
 @st.composite
 def psd_case(draw, tier):
     hi = 24 if tier == "quick" else 48
-    shape = draw(gen.shape2(4, hi))
+    shape = draw(gen.shape2(4, hi, big=0.03, big_pool=[64, 65, 128, 129, 256, 300, 513]))
     m = draw(gen.support_mask(shape, min_samples=4))
     return {"mask": m.astype(int), "rms": draw(gen.pos_log(1e-10, 1e-5)), "hpf": draw(gen.finite(1.0, 20.0)),
             "exp": draw(gen.finite(1.0, 4.0)), "pixelscale": draw(gen.pos_log(1e-4, 1e-1)),
